@@ -205,6 +205,7 @@ def method_roundtrips(ctx, props, per_class):
 
 @driver('C01')
 def drive_c01(ctx):
+    class_failure_pairs(ctx, ['C01'], decode_side=False)
     from pamqp import base as _base
     for f in small_frames(ctx):
         if isinstance(f, _base.Frame):
@@ -552,6 +553,8 @@ def drive_c05(ctx):
     import wiregen
     rec, rng = ctx.rec, ctx.rng
     P = ['C05']
+    class_failure_pairs(ctx, P, encode_side=False)
+    header_failure_pairs(ctx, P, 4 if ctx.quick else 60)
     n = 1 if ctx.quick else 12
     # every tag, boundary payloads
     for tag in wiregen.TAGS:
@@ -1376,6 +1379,8 @@ def drive_c16(ctx):
     import heapdrv
     import threads
     rng = ctx.rng
+    class_failure_pairs(ctx, ['C16'])
+    header_failure_pairs(ctx, ['C16'], 6 if ctx.quick else 80)
     for _ in range(12 if ctx.quick else 250):
         heapdrv.run_session(ctx.rec, rng, ['C16'], rng.choice([8, 14, 25]))
     replay_ladder_histories(ctx, ['C16'])
@@ -1514,7 +1519,18 @@ def history_insensitivity(ctx, props):
             rec.add('Unmarshal', props, nt=True, phase=tag, **actions.unmarshal(b))
 
     probes('fresh')
-    # ---- the storm ----
+    generic_storm(ctx, frames)
+    rec.add('Toggle', props, **actions.toggle('false'))
+    probes('after-storm')
+
+
+def generic_storm(ctx, frames=()):
+    """everything else the API offers, failures of every kind included; nothing of it is recorded -- what matters is
+    what it leaves behind for the calls that follow"""
+    import wiregen
+    from pamqp import commands, exceptions, frame
+    rng = ctx.rng
+    values = [40000, 3000000000, [40000, {'k': 65535}], {'t': gen.rand_datetime_in_range(rng)}, gen.rand_decimal_fitting(rng)]
     for v in wild_misc(rng) + wild_decimals(rng)[:20] + wild_datetimes(rng)[:12] + [1 << 64, -(1 << 70), 1e39]:
         actions.encode_value(v, 'top')
         actions.encode_value({'k': v, '\u20ac' * 100: 1}, 'table')
@@ -1538,11 +1554,190 @@ def history_insensitivity(ctx, props):
         except KeyError:
             pass
         exceptions.CLASS_MAPPING.get(code)
-    for f in frames[:20]:
+    for f in list(frames)[:20]:
         actions.observe(f) if hasattr(f, 'attributes') else None
     for mode in ('true', 'noarg', 'false', 'true', 'false'):
         actions.toggle(mode)
         for v in values[-5:]:
             actions.encode_value(v, 'top')
-    rec.add('Toggle', props, **actions.toggle('false'))
-    probes('after-storm')
+    import struct as _st
+    for depth in (65, 70, 80):       # nesting beyond the interpreter-friendly limit (refused or not, it must leave nothing behind)
+        for kind in 'AF':
+            v = nested(rng, depth, kind)
+            tbl = b'\x01k' + v
+            actions.unmarshal(wiregen.envelope(1, 0, _st.pack('>HH', 10, 11) + _st.pack('>I', len(tbl)) + tbl + wiregen.short_str('PLAIN')
+                                               + wiregen.long_str(b'') + wiregen.short_str('en_US')))
+            actions.decode_value(v, 'top')
+    for _ in range(30):            # decoded objects are the caller's: every container they hold is changed in place
+        try:
+            f_, c_ = framegen.rand_frame(rng)
+            if rng.random() < 0.5 and hasattr(f_, 'properties'):
+                f_.properties.headers = rng.choice([{}, {'k': {}}, {'k': []}])
+            n_, ch_, fo = frame.unmarshal(frame.marshal(f_, c_))
+            for obj in ([fo.properties] if hasattr(fo, 'properties') else []) + [fo]:
+                for a in getattr(type(obj), '__slots__', []):
+                    x = getattr(obj, a, None)
+                    if isinstance(x, dict):
+                        x['x-verif-mutated'] = 1
+                        for y in x.values():
+                            if isinstance(y, dict):
+                                y['x-verif-mutated'] = 2
+                            elif isinstance(y, list):
+                                y.append('x-verif-mutated')
+        except Exception:  # noqa
+            pass
+    for _ in range(40):            # frames a peer may send, decoded and re-encoded
+        try:
+            n_, ch_, fo = frame.unmarshal(wiregen.rand_wire_frame(rng, lenient=True))
+            frame.marshal(fo, ch_)
+        except Exception:  # noqa
+            pass
+    actions.toggle('false')
+
+
+# ---------------------------------------------------------------------------
+# systematic history families (used by several properties)
+# ---------------------------------------------------------------------------
+REFUSED_ARG = {'bit': [None, 'x'], 'octet': [None, 'x', 256], 'short': [None, 'x', 65536], 'long': [None, -1], 'longlong': [None, 1 << 64],
+               'shortstr': [None, 5, 'x' * 256], 'longstr': [None, 5], 'table': [5, {'k': 1 << 64}, {'\u20ac' * 100: 1}, {'k': 1e39}], 'timestamp': [5]}
+
+
+def class_failure_pairs(ctx, props, decode_side=True, encode_side=True):
+    """For every method class, as the FIRST use of that class in this interpreter where possible: a refused call
+    that fails at each argument position, immediately followed by a valid call of the same class with non-default
+    values in every argument.  Whatever the refused call leaves behind (a half-filled cache, a bit accumulator, a
+    spare object) shows in the valid call, which TLC judges against the pure operator."""
+    import wiregen
+    from pamqp import frame
+    rec, rng = ctx.rec, ctx.rng
+    for i, sm in enumerate(framegen.METHODS):
+        if not mine(ctx, i):
+            continue
+        name, cid, mid, args = sm
+        if decode_side:
+            good = wiregen.envelope(1, 3, wiregen.method_payload(rng, sm, lenient=False))
+            payload = wiregen.method_payload(rng, sm, lenient=False)
+            cuts = sorted(set([4, 5, 6, len(payload) // 2, len(payload) - 1, len(payload) - 2]) & set(range(4, len(payload))))
+            for c in cuts:
+                rec.add('Unmarshal', props, nt=True, label='class-fail', **actions.unmarshal(wiregen.envelope(1, 3, payload[:c])))
+                rec.add('Unmarshal', props, nt=True, label='class-after-fail', wf=True, **actions.unmarshal(good))
+            if any(ty == 'table' for a, ty, d in args):
+                # a refused value inside the table argument (unknown tag, timestamp beyond 9999), later arguments present
+                import struct
+                for bad in (b'\x01k\x07\x00', b'\x01kT' + struct.pack('>Q', 2 ** 64 - 1), b'\x02\xff\xfeV'):
+                    out = [struct.pack('>HH', cid, mid)]
+                    bits = []
+                    for a, ty, d in args:
+                        if ty == 'bit':
+                            bits.append(1)
+                            continue
+                        if bits:
+                            out.append(bytes([sum(b << j for j, b in enumerate(bits))]))
+                            bits = []
+                        out.append(struct.pack('>I', len(bad)) + bad if ty == 'table' else wiregen.rand_arg_wire(rng, name, a, ty, False))
+                    if bits:
+                        out.append(bytes([sum(b << j for j, b in enumerate(bits))]))
+                    rec.add('Unmarshal', props, nt=True, label='class-fail-table', **actions.unmarshal(wiregen.envelope(1, 3, b''.join(out))))
+                    rec.add('Unmarshal', props, nt=True, label='class-after-fail', wf=True, **actions.unmarshal(good))
+        if encode_side:
+            for k, (a, ty, d) in enumerate(args):
+                for badv in REFUSED_ARG.get(ty, [None])[:2 if ctx.quick else 4]:
+                    f = framegen.rand_method(rng, sm)
+                    setattr(f, a, badv)
+                    rec.add('RoundTrip', props, nt=True, label='class-refused', **actions.roundtrip(f, 2))
+                    rec.add('RoundTrip', props, nt=True, label='class-after-refused', **actions.roundtrip(framegen.rand_method(rng, sm), 2))
+            if any(ty == 'bit' for a, ty, d in args):
+                kw = framegen.method_kwargs(rng, sm)
+                for a, ty, d in args:
+                    if ty == 'bit':
+                        kw[a] = False
+                rec.add('RoundTrip', props, nt=True, label='class-all-flags-false', **actions.roundtrip(framegen.class_of(name)(**kw), 2))
+
+
+def mutate_in_place(rng, v, depth=0):
+    """change a container (dict / list / bytearray) in place; returns False when there is nothing to change"""
+    if isinstance(v, dict):
+        c = rng.random()
+        if v and c < 0.3:
+            del v[rng.choice(list(v))]
+        elif v and c < 0.5 and depth < 3:
+            k = rng.choice(list(v))
+            if not mutate_in_place(rng, v[k], depth + 1):
+                v[k] = rng.randint(0, 70000)
+        else:
+            v['x-new-%d' % rng.randint(0, 9)] = rng.choice([1, 'v', [1], {'n': 1}, True])
+        return True
+    if isinstance(v, list):
+        if v and rng.random() < 0.5:
+            i = rng.randrange(len(v))
+            if not mutate_in_place(rng, v[i], depth + 1):
+                v[i] = rng.randint(0, 70000)
+        else:
+            v.append(rng.choice([2, 'w', None]))
+        return True
+    if isinstance(v, bytearray):
+        v.extend(b'\x01\xce')
+        return True
+    return False
+
+
+def encode_mutate_encode(ctx, props, values, frames):
+    """the SAME object encoded, changed in place (key added / removed, nested element replaced, a refused element
+    repaired), encoded again: the second result is a function of the current contents only"""
+    import copy
+    from pamqp import base, header
+    rec, rng = ctx.rec, ctx.rng
+    for v in values:
+        if not isinstance(v, (dict, list)):
+            continue
+        v = copy.deepcopy(v)
+        pos = 'table' if isinstance(v, dict) and rng.random() < 0.5 else 'top'
+        rec.add('EncodeValue', props, nt=True, label='before-mutation', **actions.encode_value(v, pos))
+        for _ in range(2):
+            mutate_in_place(rng, v)
+            rec.add('EncodeValue', props, nt=True, label='after-mutation', **actions.encode_value(v, pos))
+    # a refused element repaired in place
+    for bad, fix in ((1 << 64, 2), (1e39, 1.5), ('\ud800', 'ok')):
+        for shape in (lambda x: {'a': 1, 'x-retries': [1, x], 'b': {'c': [x]}, 'd': 4}, lambda x: [{'k': x}, [x]], lambda x: {'k': {'j': x}, 'l': 1, 'm': 2, 'n': 3}):
+            v = shape(bad)
+            rec.add('EncodeValue', props, nt=True, label='refused', **actions.encode_value(v, 'top'))
+            v2 = shape(fix)
+            # repair IN PLACE: same outer object
+            if isinstance(v, dict):
+                v.clear()
+                v.update(v2)
+            else:
+                v[:] = v2
+            rec.add('EncodeValue', props, nt=True, label='repaired-in-place', **actions.encode_value(v, 'top'))
+    for f in frames:
+        tgt = f.properties.headers if isinstance(f, header.ContentHeader) else None
+        if isinstance(f, base.Frame):
+            for a in type(f).__slots__:
+                if isinstance(getattr(f, a, None), dict):
+                    tgt = getattr(f, a)
+        if not isinstance(tgt, dict):
+            continue
+        rec.add('RoundTrip', props, nt=True, label='before-mutation', **actions.roundtrip(f, 4))
+        for _ in range(2):
+            mutate_in_place(rng, tgt)
+            rec.add('RoundTrip', props, nt=True, label='after-mutation', **actions.roundtrip(f, 4))
+
+
+def header_failure_pairs(ctx, props, n):
+    """content headers: a well-framed header whose property list stops early (after 0, 1, 2 ... complete properties),
+    immediately followed by a valid header carrying a DISJOINT set of properties"""
+    import struct
+    import wiregen
+    rec, rng = ctx.rec, ctx.rng
+    for _ in range(n):
+        flags = (rng.getrandbits(13) << 3) | 0x8000 if rng.random() < 0.5 else (rng.getrandbits(13) << 3)
+        flags &= 0xFFF8
+        if not flags:
+            flags = 0xA000
+        payload = wiregen.header_payload(rng, lenient=False, flags=flags)
+        other = (~flags) & 0xFFF8 & (rng.getrandbits(16) | 0x1000)
+        good = wiregen.envelope(2, 5, wiregen.header_payload(rng, lenient=False, flags=other))
+        cuts = sorted(set(range(14, min(len(payload), 40))) | {len(payload) - 1, len(payload) - 2, (14 + len(payload)) // 2})
+        for c in [x for x in cuts if 14 <= x < len(payload)][:12]:
+            rec.add('Unmarshal', props, nt=True, label='header-fail', **actions.unmarshal(wiregen.envelope(2, 5, payload[:c])))
+            rec.add('Unmarshal', props, nt=True, label='header-after-fail', wf=True, **actions.unmarshal(good))
